@@ -117,3 +117,29 @@ def justify_break(term, r, g, width, rw, smart):
             else:
                 return None
         i += 1
+
+
+def scaled_documents():
+    """Deterministic large documents (they replace the quantifier's "random larger ones"): one group
+    around n words, so that the look-ahead of the fitting predicate has to run over hundreds of
+    documents and the page is wider than 1000 columns.  -> [(term, [(width, frac, ribbon)])]"""
+    out = []
+    for n in (50, 340, 700):
+        words = []
+        for i in range(n):
+            words.append(['t', 'abc'])
+            if i < n - 1:
+                words.append(['line'])
+        flat = 4 * n - 1
+        body = ['cat', words]
+        for term, extra in ((['group', body], 0), (['nest', 2, ['group', body]], 0),
+                            (['cat', [['group', body], ['t', 'cccc']]], 4),
+                            (['cat', [['t', 'bb'], ['nest', 2, ['cat', [['line'], ['group', body]]]]]], 0)):
+            cfgs = []
+            for w in sorted({flat + extra - 1, flat + extra, flat + extra + 1, flat // 2, 79, 1500, 2000, 2500, flat + 50}):
+                if w < 1:
+                    continue
+                for frac in (1.0, 0.9, 0.5):
+                    cfgs.append((w, frac, docalg.ribbon_width(w, frac)))
+            out.append((term, cfgs))
+    return out
